@@ -48,6 +48,13 @@ func roundTrip(rec *hx.Recorder, fs *gen.FileSpec, labels map[string]int) (strin
 	if err != nil {
 		return "HARNESS: cannot build file: " + err.Error(), false
 	}
+	if fs.ZonedUTC {
+		// date_time fields held as times shown in a zone: the instant is
+		// what the field means
+		if prof.TweakTimes(in, false, true) > 0 {
+			labels["date_time fields shown in a zone"]++
+		}
+	}
 	aliased := 0
 	if fs.Aliased {
 		// the File's arrays are overlapping views of one buffer
@@ -92,6 +99,7 @@ func roundTrip(rec *hx.Recorder, fs *gen.FileSpec, labels map[string]int) (strin
 		if err != nil {
 			return err
 		}
+		prof.TweakTimes(again, false, fs.ZonedUTC)
 		return fit.Encode(w, again, order(fs.BigEndian))
 	}); msg != "" {
 		return "Encode: " + msg, false
